@@ -1,2 +1,30 @@
-(* C01 — placeholder, theorems follow *)
-From T4V Require Import C01.Model.
+(* C01 — cell regions: every point stays in the volume of the cell that owns it.
+   Only restatements; proofs are in coq/C01/Proofs*.v.  Surfaces are abstract ids;
+   a point off all surfaces is its sense assignment sigma : Z -> bool. *)
+From Coq Require Import List ZArith Bool.
+From T4V Require Import C01.Model C01.Spec C01.ProofsTree.
+Import ListNotations.
+Open Scope Z_scope.
+
+(* pot_flag only numbers the nodes *)
+Theorem C01_flag_den : forall sigma cden matching (t : tree msurf) n,
+  mden sigma cden matching (fst (flag t n)) = mden sigma cden matching t.
+Proof. exact flag_den. Qed.
+Print Assumptions C01_flag_den.
+
+(* pot_expand_surfs: the tree over TRIPOLI-4 ids means what the tree over MCNP
+   surfaces means (collection: -s = all members negative, +s = one member
+   positive; facet s.k = k-th member), for surface ids <> 0 and facets >= 1 *)
+Theorem C01_expand_surfs_den : forall sigma cden matching (t : tree msurf) n t' n',
+  expand matching t n = Ok (t', n') -> leaves_ok (msurf_ok matching) t ->
+  tden sigma cden t' = mden sigma cden matching t.
+Proof. exact expand_den. Qed.
+Print Assumptions C01_expand_surfs_den.
+
+(* pot_optimise: flattening and pruning keep the region; None only for a region
+   that is empty for every sense assignment *)
+Theorem C01_optimise_den : forall sigma cden (t : tree Z),
+  (forall t', optimise t = Some t' -> tden sigma cden t' = tden sigma cden t) /\
+  (optimise t = None -> tden sigma cden t = false).
+Proof. exact optimise_den. Qed.
+Print Assumptions C01_optimise_den.
